@@ -206,63 +206,104 @@ def _check_namespace(repo, res):
 
 
 def _check_derived(repo, res, cls):
+    """derived parameters, by interpretation: a model object with states, parameters and a vector state gets derived parameters through
+    the real `_addDerivedParam` (-> checkEquation, whose exec / parse / eval of formatted source text is interpreted), then equations
+    are parsed through the real `_getListOfVariablesDict` + `checkEquation`.  Every result is compared, as a polynomial identity, with
+    the equation in which every derived parameter is replaced by its definition in base parameters."""
+    from ..core.absint import Abs, Obj, Tok, Raised
     ce = repo.func(M.M_VERIF, "checkEquation")
-    cfg, df = cfg_of(ce), dataflow_of(ce)
-    dp = ce.params[2]
-    # the substitution loop iterates over all derived_var.items() and is reached when subs_derived is true
-    loops = [n for n in cfg.nodes if n.kind == "iter" and norm(n.ast.iter) == "%s.items()" % dp]
-    sub_loops = []
-    for ln in loops:
-        body_calls = [x for st in ln.ast.body for x in ast.walk(st) if isinstance(x, ast.Call)]
-        if any(".subs(" in norm(x) or (dotted(x.func) == "eval" and "subs" in norm(x)) for x in body_calls):
-            sub_loops.append(ln)
-    ok = len(sub_loops) == 1
-    why = "derived parameters are substituted in a loop over all of derived_var.items()"
-    if ok:
-        ln = sub_loops[0]
-        gs = [(norm(t.ast.test), o) for t, o in cfg.guards_of(ln) if isinstance(t.ast, ast.If)]
-        allowed = all((g == ce.params[3] and o is True) or (g.startswith("isinstance(_eqn") and o is True) for g, o in gs)
-        has_if = any(isinstance(x, ast.If) for st in ln.ast.body for x in ast.walk(st)) or any(isinstance(x, (ast.Break, ast.Continue)) for st in ln.ast.body for x in ast.walk(st))
-        ok = allowed and not has_if
-        if not ok:
-            why = "the substitution loop is guarded by %s / filters entries: some derived parameters are left unsubstituted" % gs
-    else:
-        why = "no single loop substituting every entry of derived_var found"
-    res.check(ok, "R-DERIVED", ce, "substitute-all", why, why, node=sub_loops[0].ast if sub_loops else ce.node)
-    # the substituted expression is what is appended to the output
     ad = repo.resolve_method(cls, "_addDerivedParam")
-    cfg, df = cfg_of(ad), dataflow_of(ad)
-    av = repo.resolve_method(cls, "_addVariable")
-    cs = C.calls_to(ad, "self._addVariable")
-    ok = False
-    why = "_addDerivedParam does not call _addVariable"
-    for n, c, callee in cs:
-        b = C.bind_args(c, av.params[1:])
-        sym = df.expand(b.get("symbol"), n) if b.get("symbol") is not None else None
-        ok = isinstance(sym, ast.Call) and dotted(sym.func) == "checkEquation" and sym.args and norm(sym.args[0]) == ad.params[2] \
-            and is_self_attr(b.get("obj_dict"), "_derivedParamDict") and is_self_attr(b.get("obj_list"), "_derivedParamList")
-        why = "derived parameter stored as checkEquation(eqn, ...) (already substituted, so chains resolve)" if ok else \
-            "the derived parameter is stored as %s in %s" % (norm(b.get("symbol")), norm(b.get("obj_dict")))
-    res.check(ok, "R-DERIVED", ad, "store-substituted", why, why, node=cs[0][1] if cs else ad.node)
-    # _addVariable stores symbol under var_obj.ID
-    cfg, df = cfg_of(av), dataflow_of(av)
-    ok = False
-    for n in cfg.stmt_nodes():
-        st = n.ast
-        if n.kind == "stmt" and isinstance(st, ast.Assign) and isinstance(st.targets[0], ast.Subscript) \
-                and norm(st.targets[0].value) == av.params[4] and norm(st.targets[0].slice) == av.params[2] + ".ID" and norm(st.value) == av.params[1]:
-            ok = True
-    res.check(ok, "R-DERIVED", av, "dict-store", "obj_dict[var_obj.ID] = symbol", "_addVariable does not store the symbol under the variable's ID")
-    # _getListOfVariablesDict hands all three symbol tables and the derived dict
-    gl = repo.resolve_method(cls, "_getListOfVariablesDict")
-    attrs = {x.attr for x in ast.walk(gl.node) if is_self_attr(x)}
-    want = {"_paramDict", "_stateDict", "_vectorStateDict", "_derivedParamDict"}
-    res.check(want <= attrs, "R-DERIVED", gl, "tables", "all symbol tables are handed to checkEquation",
-              "symbol tables missing from _getListOfVariablesDict: %s" % sorted(want - attrs))
-    rets = C.returns_of(gl)
-    ok = bool(rets) and all(isinstance(r.ast.value, ast.Tuple) and len(r.ast.value.elts) == 2 and is_self_attr(r.ast.value.elts[1], "_derivedParamDict") for r in rets)
-    res.check(ok, "R-DERIVED", gl, "derived-slot", "second element is the derived-parameter dict (checkEquation's derived_var)",
-              "_getListOfVariablesDict does not return the derived dict in the derived_var position")
+    if ad is None:
+        raise AnalysisError("_addDerivedParam vanished")
+    a, b, c, S, I = (A.sym(x) for x in ("a", "b", "c", "S", "I"))
+    y1, y2 = A.sym("y1"), A.sym("y2")
+
+    def world():
+        me = Obj("Model", _paramDict={"a": a, "b": b, "c": c, "t": A.sym("t")}, _stateDict={"S": S, "I": I, "y1": y1, "y2": y2}, _vectorStateDict={"y": (y1, y2)},
+                 _derivedParamDict={}, _derivedParamList=[], _derivedParamEqn=[], _paramList=[], _stateList=[])
+        me.attrs["_hasNewTransition"] = Obj("Canary")
+
+        def symbols(names, **k):
+            parts = [x.strip() for x in names.replace(",", " ").split() if x.strip()]
+            vals = tuple(A.sym(x) for x in parts)
+            return vals[0] if len(vals) == 1 and "," not in names else vals
+
+        def parse_expr(text, local_dict=None, **k):
+            sub = Abs(dict(local_dict or {}), {}, summ, None)
+            return sub._run_source(text, "eval")
+        summ = {"symbols": symbols, "sympy.symbols": symbols, "parse_expr": parse_expr, "Canary.trip": lambda c_: None,
+                "ODEVariable": lambda ID, name=None, *a_, **k: Obj("ODEVariable", ID=ID, name=name if name is not None else ID, __str__=ID)}
+        types = {"Expr": lambda v: type(v).__name__ == "Rat", "sympy.Expr": lambda v: type(v).__name__ == "Rat", "ODEVariable": lambda v: isinstance(v, Obj) and v.cls == "ODEVariable"}
+
+        def fresh():
+            ab = Abs({}, types, summ, me)
+            ab.class_methods = set(repo.all_methods(cls))
+            ab.self_class = (repo, cls)
+            return ab
+        return me, fresh
+    truth = {"d": a * b, "e": a * b + a, "f": (a * b + a) * c + a * b}          # definitions in base parameters
+    defs = [("d", "a*b"), ("e", "d + a"), ("f", "e*c + d")]
+    cases = [("one derived parameter", "d*S + b*I", a * b * S + b * I),
+             ("two derived parameters in one term", "d*e*S", (a * b) * (a * b + a) * S),
+             ("a derived parameter defined through derived parameters", "f*I - c", truth["f"] * I - c),
+             ("every derived parameter at once, with a vector state", "d*y1 + e*y2 + f*S", truth["d"] * y1 + truth["e"] * y2 + truth["f"] * S),
+             ("no derived parameter", "a*S*I", a * S * I)]
+    problems, n = [], 0
+    try:
+        me, fresh = world()
+        for name, eqn in defs:
+            ab = fresh()
+            ab.module = ad.module
+            kind, out = ab.run_function(ad.node, {ad.params[1]: name, ad.params[2]: eqn})
+            if kind != "return":
+                problems.append("declaring the derived parameter %s = %s raises %s" % (name, eqn, out))
+                break
+        if not problems:
+            stored = me.attrs["_derivedParamDict"]
+            for name, _ in defs:
+                got = stored.get(name)
+                n += 1
+                if not (type(got).__name__ == "Rat" and got == truth[name]):
+                    problems.append("derived parameter %s (declared as %s) is stored as %r; in base parameters it is %r" % (name, dict(defs)[name], got, truth[name]))
+            gl = repo.resolve_method(cls, "_getListOfVariablesDict")
+            for label, text, want in cases:
+                for form in ("string", "list"):
+                    ab = fresh()
+                    ab.module = gl.module
+                    kind, tables = ab.run_function(gl.node, {})
+                    if kind != "return" or not (isinstance(tables, tuple) and len(tables) == 2):
+                        problems.append("_getListOfVariablesDict gives %r" % (tables,))
+                        break
+                    ab2 = fresh()
+                    ab2.self_obj = None
+                    ab2.module = ce.module
+                    arg = text if form == "string" else [text, "a + " + text]
+                    kind, out = ab2.run_function(ce.node, {ce.params[0]: arg, ce.params[1]: tables[0], ce.params[2]: tables[1]})
+                    n += 1
+                    if kind != "return":
+                        problems.append("%s: parsing %r raises %s" % (label, arg, out))
+                        continue
+                    outs = [out] if form == "string" else list(out) if isinstance(out, (list, tuple)) else [out]
+                    wants = [want] if form == "string" else [want, a + want]
+                    if len(outs) != len(wants) or any(not (type(g_).__name__ == "Rat" and g_ == w_) for g_, w_ in zip(outs, wants)):
+                        problems.append("%s: %r is parsed to %r; with every derived parameter replaced by its definition it is %r" % (label, arg, outs, wants))
+            # subs_derived=False leaves the derived symbols alone
+            ab2 = fresh()
+            ab2.self_obj = None
+            ab2.module = ce.module
+            ab = fresh()
+            ab.module = gl.module
+            _, tables = ab.run_function(gl.node, {})
+            kind, out = ab2.run_function(ce.node, {ce.params[0]: "d*S", ce.params[1]: tables[0], ce.params[2]: tables[1], ce.params[3]: False})
+            n += 1
+            if not (kind == "return" and type(out).__name__ == "Rat" and out == A.sym("d") * S):
+                problems.append("with substitution switched off 'd*S' is parsed to %r" % (out,))
+    except A.Undecided as e:
+        res.undecided("R-DERIVED", ce, "substituted-everywhere", "outside the modelled subset: %s" % e)
+        return
+    res.check(not problems, "R-DERIVED", ce, "substituted-everywhere", "%d parses / declarations: every derived parameter (also one defined through others) is replaced by its definition in base "
+              "parameters, in single equations and lists, and is stored in that form" % n, "; ".join(problems[:2]), node=ce.node)
+    res.floor("derived-parameter interpretations", n, 12)
 
 
 def check_closures(repo, res):
